@@ -18,6 +18,15 @@ earlier inductive lemma (for the same free constants) as a hypothesis: that is a
                                run(U, k, s') = s  -  which IS the operation's `undo-restores` lemma (k = 2 for Reaction.__imul__, k = 1
                                for a `resettable` setter and for Reaction.add_metabolites, k = len(trace) for Model.remove_reactions,
                                k = 0 for an operation that changes nothing or a completed nested block)  ==>  CI(h', n + k, s', s_entry)
+    run/congruence:{base,step}, CI/step:modulo-observational-equality   the operation contracts give EQUAL VIEWS, not equal worlds:
+                               with obs := `all views agree` (an equivalence) and the ASSUMED congruence `an undo entry run in
+                               obs-equal worlds leaves obs-equal worlds`, replay respects obs (induction on n) and CI/step holds
+                               with `==` on worlds replaced by obs everywhere
+    run/unfold:k=1,2           run(U, 1, w) = eff(U[0], w), run(U, 2, w) = eff(U[0], eff(U[1], w)): the undo-restores lemmas of
+                               c12_rxn_arith (__imul__: two entries), c02_rxn_add_metabolites, c03_objective and c03_context
+                               (removed variable: two entries) walk through explicit intermediate states in exactly this order
+    undo-restores/sequence     two operations in sequence, each with an undo-restores lemma: the concatenated registrations restore
+                               (so knock_out_model_genes - one Gene.knock_out per gene and reads - needs no lemma of its own)
     CI/exit                    from the very post-condition of Model.__exit__ (case innermost_context): CI for the innermost manager
                                ==> the world after the exit is s_entry, the stack is one shorter; __exit__ has no raising path in that
                                case (proved in c03_context: every path of the case ends normally given the non-reentrancy assumption
@@ -74,11 +83,11 @@ earlier inductive lemma (for the same free constants) as a hypothesis: that is a
                                          c07_knockout `_ko_effect`) with the exact map F: one reaction's bounds undo gives back lb,
                                          ub and the four variable bounds; the knock-out and the undo of x leave the other reactions'
                                          cells alone (frame), so CI/step applies once per changed reaction (k = 1).
-    ONE known raising operation does NOT satisfy the step: `with model: reaction *= 0` (Reaction.__imul__ registers
-    _populate_solver([self]), then `1.0 / coefficient` raises ZeroDivisionError with the zeroed stoichiometry left behind and no
-    inverse registered: the DEFECT reported in contracts/c12_rxn_arith.py; in the /repo tree this module was developed against the
-    body is still the unrepaired one and that contract's obligations `exit=raise:ZeroDivisionError/unexpected-exception`, `post.10`
-    fail in the C03 run - independently of this module).
+    ONE raising operation did NOT satisfy the step: `with model: reaction *= 0` (Reaction.__imul__ registered
+    _populate_solver([self]), then `1.0 / coefficient` raised ZeroDivisionError with the zeroed stoichiometry left behind and no
+    inverse registered: the DEFECT reported in contracts/c12_rxn_arith.py; re-confirmed natively at the start of this work - after
+    the exit the coefficients were {a: -0.0, b: 0.0} - and repaired in /repo by 7c2470e while this module was written: the undo is
+    now setattr(self, "_metabolites", <entry dictionary>), registered after the change, nothing can raise in between).
 
 KERNEL MUTANTS the glue rests on (tools/mutate_and_run.sh against contracts.c03_context, each must NOT verify - the glue lemmas
 themselves are closed formulas over contracts and have the hypothesis-dropping / wrong-statement guards instead):
@@ -95,8 +104,8 @@ negated goal is satisfiable / not refuted).  `GUARDS` records the verdict of eac
 
 STAYS ASSUMED (not provable inside this framework): Python's `with` protocol (`__exit__` is called exactly once on every way out of
 the block, normal or exceptional, with the stack as the block left it); the induction principle; non-reentrancy (an undo entry does
-not touch the history being reset and returns); that the abstract `World` is the product of the point-indexed views the operation
-contracts use, i.e. that two worlds with equal views are equal for the purpose of C03 (the order of the reaction / metabolite /
+not touch the history being reset and returns); that the effect of an undo entry depends only on the point-indexed views the operation
+contracts use (congruence, stated as a hypothesis of run/congruence:step), i.e. that worlds with equal views are interchangeable for the purpose of C03 (the order of the reaction / metabolite /
 gene lists is not a view: the statement excludes it); that every context-aware operation of the library HAS an `undo-restores` lemma
 (those that have one: Model.remove_reactions, Reaction.__imul__, Reaction.add_metabolites, set_objective, remove_cons_vars of a
 variable, the resettable setters and knock-outs here; the others: bounded driver).
@@ -182,11 +191,59 @@ def _ci_step(out):
             ("undo-restores (the operation's lemma)", run(U, k, s1) == s, True),
             ("lemma run/prefix", prefix, True), ("lemma run/segment", segment, True)]
     _lemma(out, "CI/step", hyps, run(h1, n + k, s1) == se)
+    # undo-restores lemmas COMPOSE: an operation that is a sequence of two operations each with an undo-restores lemma has one
+    # (knock_out_model_genes = Gene.knock_out per gene, the drivers' `with model:` bodies, Model.medium setter = bounds per exchange)
+    U1, U2, U12 = (z3.Const(x, SeqRef) for x in ("sq_U1", "sq_U2", "sq_U"))
+    k1, k2 = z3.Int("sq_k1"), z3.Int("sq_k2")
+    t0, t1, t2 = (z3.Const(x, World) for x in ("sq_s", "sq_s1", "sq_s2"))
+    hy = [("k1>=0", k1 >= 0, False), ("k2>=0", k2 >= 0, False),
+          ("the entries of the first operation come first", _agree(U12, U1, k1), True),
+          ("then those of the second", _agree(U12, U2, k2, off=k1, nm="bj"), True),
+          ("undo-restores of the first operation (s -> s1)", run(U1, k1, t1) == t0, True),
+          ("undo-restores of the second operation (s1 -> s2)", run(U2, k2, t2) == t1, True),
+          ("lemma run/prefix", z3.Implies(_agree(U12, U1, k1), _same_run(U12, k1, U1, k1)), True),
+          ("lemma run/segment", z3.Implies(_agree(U12, U2, k2, off=k1), _same_run(U12, k1 + k2, U12, k1, inner=lambda w: run(U2, k2, w))), True)]
+    _lemma(out, "undo-restores/sequence", hy, run(U12, k1 + k2, t2) == t0)
     # k = 0, nothing registered and nothing changed (unchanged value under `resettable`, an operation that raises before it
     # changes or registers anything): CI is kept by the prefix lemma alone
     hyps0 = [("n>=0", n >= 0, False), ("CI before", run(h, n, s) == se, True), ("old entries kept", _agree(h1, h, n), True),
              ("lemma run/prefix", prefix, True)]
     _lemma(out, "CI/step:nothing-registered-nothing-changed", hyps0, run(h1, n, s) == se)
+
+
+def _ci_observational(out):
+    """The operation contracts speak about point-indexed VIEWS of the model, not about the abstract World: their undo-restores
+    lemmas give `the views of run(U, k, s') are the views of s`.  obs(w, w') := all views agree (an equivalence, uninterpreted here).
+    What has to be ASSUMED of the undo entries is congruence - an entry run in two observationally equal worlds leaves
+    observationally equal worlds (its effect depends on the views only) - and then replay respects obs (induction) and the context
+    invariant can be carried modulo obs."""
+    obs = z3.Function("obs_eq", World, World, B_)
+    a, b, c = (z3.Const(x, World) for x in ("ob_a", "ob_b", "ob_c"))
+    u = z3.Const("ob_u", Ref)
+    equiv = [("obs is reflexive", z3.ForAll([a], obs(a, a), patterns=[obs(a, a)]), False),
+             ("obs is transitive", z3.ForAll([a, b, c], z3.Implies(z3.And(obs(a, b), obs(b, c)), obs(a, c)),
+                                             patterns=[z3.MultiPattern(obs(a, b), obs(b, c))]), False)]
+    cong = ("ASSUMED congruence: an undo entry run in observationally equal worlds leaves observationally equal worlds",
+            z3.ForAll([u, a, b], z3.Implies(obs(a, b), obs(eff(u, a), eff(u, b))), patterns=[z3.MultiPattern(eff(u, a), eff(u, b))]), True)
+    h, n = z3.Const("ob_h", SeqRef), z3.Int("ob_n")
+    P = lambda m: z3.ForAll([a, b], z3.Implies(obs(a, b), obs(run(h, m, a), run(h, m, b))),  # noqa
+                            patterns=[z3.MultiPattern(run(h, m, a), run(h, m, b))])
+    _lemma(out, "run/congruence:base", _axs() + equiv, P(z3.IntVal(0)), guard=False)
+    _lemma(out, "run/congruence:step", _axs() + equiv + [cong, ("n>=0", n >= 0, False), ("induction-hypothesis", P(n), True)], P(n + 1))
+    # CI/step modulo obs
+    h1, U, k = z3.Const("ob_h1", SeqRef), z3.Const("ob_U", SeqRef), z3.Int("ob_k")
+    s, s1, se = (z3.Const(x, World) for x in ("ob_s", "ob_s1", "ob_entry"))
+    prefix = z3.Implies(_agree(h1, h, n), _same_run(h1, n, h, n))
+    segment = z3.Implies(_agree(h1, U, k, off=n), _same_run(h1, n + k, h1, n, inner=lambda w: run(U, k, w)))
+    hyps = [equiv[0], (equiv[1][0], equiv[1][1], True), ("n>=0", n >= 0, False), ("k>=0", k >= 0, False),
+                    ("CI before (modulo obs)", obs(run(h, n, s), se), True),
+                    ("old entries kept", _agree(h1, h, n), True), ("new entries appended", _agree(h1, U, k, off=n, nm="bj"), True),
+                    ("undo-restores (the operation's lemma: the VIEWS of the replayed world are those of s)", obs(run(U, k, s1), s), True),
+                    ("lemma run/prefix", prefix, True), ("lemma run/segment", segment, True), ("lemma run/congruence", P(n), True)]
+    _lemma(out, "CI/step:modulo-observational-equality", hyps, obs(run(h1, n + k, s1), se))
+    # the per-operation lemmas of the other modules walk through explicit intermediate states (k = 1, 2): that IS run
+    w = z3.Const("ob_w", World)
+    _lemma(out, "run/unfold:k=1,2", _axs(), z3.And(run(U, 1, w) == eff(U[0], w), run(U, 2, w) == eff(U[0], eff(U[1], w))), guard=False)
 
 
 def _synthetic(params, mod, tag):
@@ -567,6 +624,7 @@ def lemmas():
     GUARDS.clear()
     _run_lemmas(out)
     _ci_step(out)
+    _ci_observational(out)
     _ci_enter_exit(out)
     _closed_form(out)
     _closed_form_remove_reactions(out)
